@@ -21,9 +21,11 @@ META = {
             "array chains, slot positions, accounting and all allocator/upstream/destructor events compared exactly).  "
             "Monitors on the real classes check the property text directly, including Shared/Swiss resources under real "
             "threads created while others allocate.",
-    "note": "Shared/Swiss variants are covered by monitors over real threads only (no model, no schedule enumeration): "
-            "per-thread exclusive resources + recording thread-safe allocators, disjointness/ownership/contents/release "
-            "exactness checked after joins.  Contents stability is proved as 'every store of the resource is inside a "
+    "note": "Shared/Swiss variants: c06_shared_disjoint proves cross-thread disjointness for per-thread exclusive "
+            "resources over shared allocators under every interleaving incl. thread creation; the thread->resource map "
+            "(EnumerableThreadLocal) and release of all per-thread resources are covered by monitors over real threads "
+            "only (recording thread-safe allocators, disjointness/ownership/contents/release exactness checked after "
+            "joins; no schedule enumeration).  Contents stability is proved as 'every store of the resource is inside a "
             "bookkeeping array, and those are disjoint from live blocks' (the model has no byte memory).  Move: both "
             "move-assignment into a prepared target and move-construction are operations of the model and of every "
             "theorem; that operator=(&&) swaps _upstream is read off the source by the translator "
